@@ -439,6 +439,18 @@ func c01Cases(kind string, seed uint64, n int) []c01Case {
 			return m
 		}())
 		mk("macro-recursion", "a.tpl", map[string]string{"a.tpl": `{% macro m(x) %}{{ m(x) }}{% endmacro %}{{ m(1) }}`})
+		// recursion that never enters the macro's body: through a default argument
+		mk("macro-recursion", "a.tpl", map[string]string{"a.tpl": `{% macro a(x=a()) %}{{ x }}{% endmacro %}{{ a() }}`})
+		mk("macro-recursion", "a.tpl", map[string]string{"a.tpl": `{% macro a(x=b()) %}{{ x }}{% endmacro %}{% macro b(y=a()) %}{{ y }}{% endmacro %}{{ b() }}`})
+		mk("macro-recursion", "a.tpl", map[string]string{"a.tpl": `{% import "lib.tpl" a %}{{ a() }}`, "lib.tpl": `{% macro a(x=a()) export %}{{ x }}{% endmacro %}`})
+		mk("macro-recursion", "a.tpl", map[string]string{"a.tpl": `{% macro a(x) %}{% with y=a(x) %}{{ y }}{% endwith %}{% endmacro %}{{ a(1) }}`})
+		mk("macro-recursion", "a.tpl", map[string]string{"a.tpl": `{% macro a(x) %}{% for q in "ab" %}{% if a(q) %}{% endif %}{% endfor %}{% endmacro %}{{ a(1) }}`})
+		// a lazily included name that cannot be loaded, or does not compile, asked for again and again
+		mk("lazy-missing", "a.tpl", map[string]string{"a.tpl": `{% for n in "aab" %}{% include n if_exists %}{% endfor %}`})
+		mk("lazy-missing", "a.tpl", map[string]string{"a.tpl": `{% set n = "nope.tpl" %}{% include n if_exists %}{% include n if_exists %}{% include n %}`})
+		mk("lazy-missing", "a.tpl", map[string]string{"a.tpl": `{% set n = "nope.tpl" %}{% include n %}`})
+		mk("lazy-missing", "a.tpl", map[string]string{"a.tpl": `{% set n = "bad.tpl" %}{% for q in "ab" %}{% include n if_exists %}{% endfor %}`, "bad.tpl": `{% if %}`})
+		mk("lazy-missing", "a.tpl", map[string]string{"a.tpl": `{% set n = "bad.tpl" %}{% include n %}`, "bad.tpl": `{{ 1|nosuchfilter }}`})
 		mk("deep-nesting", "a.tpl", map[string]string{"a.tpl": strings.Repeat("{% if 1 %}", 2000) + "x" + strings.Repeat("{% endif %}", 2000)})
 		mk("deep-parens", "a.tpl", map[string]string{"a.tpl": "{{ " + strings.Repeat("(", 5000) + "1" + strings.Repeat(")", 5000) + " }}"})
 		mk("deep-array", "a.tpl", map[string]string{"a.tpl": "{{ " + strings.Repeat("[", 3000) + "1" + strings.Repeat("]", 3000) + " }}"})
@@ -488,7 +500,12 @@ func c01Run(c c01Case, limit time.Duration) (class, msg string) {
 			ct := g.StdCtx()
 			ctx = ct.Go()
 		}
+		// twice: a compiled template is executed again after an execution that failed or succeeded
+		_, err1 := tpl.Execute(ctx)
 		_, err = tpl.Execute(ctx)
+		if err == nil {
+			err = err1
+		}
 		if err != nil {
 			r = res{"exec", err.Error()}
 			return
